@@ -447,7 +447,10 @@ var c20FixedValid = []string{
 	"0.18446744073709551616h", "1.99999999999999999999999h", "0.33333333333333333333h", "0.1d", "0.33333333333333333333d", "2.7d",
 	"1h0m5s", "1h0m0s", "0h0m0s", "0d", "0.0s", "00s", "0.s", ".0s", "1.s", ".1s", "1s1s", "1ns1ns", "5m5h", "1s2m3h4d",
 	"4611686018427387904ns4611686018427387904ns", "4611686018427387904ns4611686018427387903ns", "-4611686018427387904ns4611686018427387904ns",
-	"9223372036854775808ns0ns", "0ns9223372036854775808ns", "1h1h1h1h", "100000d10h10m10s100ms100µs100ns", "-100000d10h10m10s100ms100µs100ns",
+	"9223372036854775808ns0ns", "0ns9223372036854775808ns", "1h1h1h1h",
+	// three and more terms whose exact sum passes 2^64 (the running sum must be checked term by term)
+	"9223372036854775807ns9223372036854775807ns5ns", "2562047h2562047h2562047h", "106751d106751d106751d", "9223372036854775807ns9223372036854775807ns2ns",
+	"2562047h2562047h2562047h2562047h1h", "-9223372036854775807ns9223372036854775807ns9223372036854775807ns", "4611686018427387904ns4611686018427387904ns4611686018427387904ns4611686018427387904ns1ns", "100000d10h10m10s100ms100µs100ns", "-100000d10h10m10s100ms100µs100ns",
 }
 
 var c20FixedMalformed = []string{
